@@ -84,7 +84,8 @@ func (c *Check) signalFrameThreshold() {
 	}
 	isLenSamples := func(v ssa.Value) bool {
 		lx := lenArg(v)
-		return lx != nil && fieldLoadOf(lx, "profile.Profile", "Sample")
+		// the sample list itself, or a parameter that receives it
+		return lx != nil && fieldLoadOf(argOfParam(p, lx, 0), "profile.Profile", "Sample")
 	}
 	n := 0
 	var blocks []*ssa.BasicBlock
